@@ -15,7 +15,8 @@
 //	commit <slot> <id>            Chain.SubmitTx of the slot's transaction; on success it is transaction number <id>
 //	                              (versions are printed as <id>.<offset in TxOutputsExt>)     -> accept | reject | n/a
 //	mut <slot> <class> [args]     one mutation of the slot's transaction, VerifyTx on the node, DoTx on a copy, and
-//	                              (sampled) a block holding it played by a replica            -> accept | reject | n/a
+//	                              (sampled) a block holding it played by a replica
+//	                              -> accept | reject-v (refused by VerifyTx) | reject-d (by DoTx only) | n/a
 //	mine                          the pending transactions are packed into a block, confirmed and played   -> ok
 //	replica                       a fresh node confirms + plays every block of the node and must reach the same state -> same
 //
@@ -31,7 +32,11 @@
 package main
 
 import (
+	"encoding/json"
 	"fmt"
+	"io/ioutil"
+	"os"
+	"os/exec"
 	"path/filepath"
 	"sort"
 	"strings"
@@ -301,13 +306,58 @@ func splitCases(lines []string) [][]string {
 	return cs
 }
 
+// supervise runs the harness proper in a child process: a fatal error of the real code (stack overflow, concurrent
+// map access ...) cannot be recovered in-process and would lose the run. The child checkpoints its statistics at every
+// violation and the op lines of the case it is executing; if it dies, the parent reports the case as a violation.
+func supervise(outDir string) {
+	self, err := os.Executable()
+	if err != nil {
+		return
+	}
+	cmd := exec.Command(self, os.Args[1:]...)
+	cmd.Env = append(os.Environ(), "XV_CONTRACT_WORKER=1")
+	cmd.Stdout, cmd.Stderr = os.Stdout, os.Stderr
+	err = cmd.Run()
+	if err == nil {
+		os.Exit(0)
+	}
+	var st xvlib.Stats
+	if b, e := ioutil.ReadFile(filepath.Join(outDir, "stats.json")); e == nil {
+		json.Unmarshal(b, &st)
+	}
+	if st.Distribution == nil {
+		st.Distribution = map[string]int{}
+	}
+	var ops []string
+	if _, e := os.Stat(filepath.Join(outDir, "case.ops")); e == nil {
+		ops = xvlib.ReadLines(filepath.Join(outDir, "case.ops"))
+	}
+	st.Violations = append(st.Violations, xvlib.Violation{Key: "crash", Ops: ops, Impl: []string{"<process died>"},
+		What: fmt.Sprintf("the process died (%v) while the real code executed the last op line of this case", err)})
+	st.Distribution["violation:crash"]++
+	if st.Samples == nil {
+		st.Samples = []interface{}{}
+	}
+	b, _ := json.MarshalIndent(st, "", " ")
+	ioutil.WriteFile(filepath.Join(outDir, "stats.json"), b, 0644)
+	for _, f := range []string{"ops.txt", "impl.out"} {
+		if _, e := os.Stat(filepath.Join(outDir, f)); e != nil {
+			ioutil.WriteFile(filepath.Join(outDir, f), nil, 0644)
+		}
+	}
+	os.Exit(0)
+}
+
 func main() {
 	args := xvlib.ParseArgs()
+	if os.Getenv("XV_CONTRACT_WORKER") == "" {
+		supervise(args.Out)
+	}
 	out := xvlib.NewOut(args.Out)
 	defer out.Close()
-	ex := &Exec{scratch: args.Scratch, out: out, blockEvery: 4}
+	ex := &Exec{scratch: args.Scratch, out: out, blockEvery: 3}
 	if args.Tier == "thorough" {
-		ex.blockEvery = 2
+		ex.blockEvery = 1
 	}
 	if v := xvlib.EnvInt("XV_BLOCK_EVERY", -1); v >= 0 {
 		ex.blockEvery = v
@@ -340,9 +390,9 @@ func main() {
 	}
 	n := xvlib.EnvInt("XV_CASES", 0)
 	if n == 0 {
-		n = 40
+		n = 500
 		if args.Tier == "thorough" {
-			n = 600
+			n = 8000
 		}
 	}
 	g := &Gen{r: xvlib.NewRng(args.Seed*1000003 + 909), e: ex, out: out}
